@@ -300,7 +300,9 @@ def on_abnormal(case, kind, info):
                     break
         return K.result("violated", key="spin/%s/%s" % (fn, "valid-archive" if fam == "intact" else "hostile-input"), what="worker thread kept spinning (%s)" % fam)
     if kind == "deadlock":
-        return K.result("violated", key="deadlock/%s" % fam, what="call blocked with no CPU progress (%s)" % fam)
+        # valid_input: the runner must not file a block inside a codec library under the library's known
+        # finding (decode past the end of a hostile stream) when the archive was a valid one
+        return K.result("violated", key="deadlock/%s" % fam, what="call blocked with no CPU progress (%s)" % fam, valid_input=(fam == "intact"))
     if kind.startswith("crash:"):
         if "KILL" in kind:
             return K.result("violated", key="killed/%s" % fam, what="worker was killed (out of memory?) on family %s" % fam)
